@@ -44,3 +44,9 @@ PROPS["C16"] = {"lean_modules": ["Vet.Props.C16"], "corr": ["corr.aggregate"], "
 PROPS["C18"] = {"lean_modules": ["Vet.Props.C18"], "corr": [], "trusted": ["flock(2) exclusion and POSIX read/write semantics of the OS (assumed, not modelled)", "strace's report of the syscall sequence", "NFS / lock-unsupported file systems and Windows are out of scope"], "assumptions": ["each invocation follows the process program of lean/Vet/Model/Lock.lean (checked by trace conformance on the real Store API)"],
                 "shards": {"quick": 4, "thorough": 8},
                 "explanation": "Theorems about the N-process lock protocol model for all interleavings; tie: syscall-trace conformance of the real Store::acquire_offline/commit with the model's process program, and sampled real schedules (2..6 threads, random think times) checked for lost updates and load errors."}
+
+PROPS["C08"] = {"lean_modules": ["Vet.Props.C08"], "corr": ["corr.registry"], "trusted": ["crates.io index / API JSON shapes (mocked)", "semver ordering of published versions"], "assumptions": ["the mock network stands in for crates.io"],
+                "shards": {"quick": 4, "thorough": 8},
+                "explanation": "Theorems about the model of the unpublished-version choice, the audit-as-crates-io consistency check and the classification; tie: real cmd_check on disk against a mock registry over registry states, outcome class vs the model, oracles on the recorded choice and on the --locked run after publication."}
+PROPS["C17"] = {"lean_modules": ["Vet.Props.C17"], "corr": ["corr.suggest", "corr.wire"], "trusted": CORE_TRUST + ["diffstat (mocked |to^2 - from^2| offline)", "which versions have sources (offline rule)"], "assumptions": CORE_ASSUME,
+                "explanation": "Theorems about the model of suggest_delta / compute_suggested_criteria / the de-duplication and the healing lemma on the audit graph; tie: the real compute_suggest on failing worlds, recommendation must be a least-cost member of the model's candidates; oracle: certify all proposals for their criteria and re-run the real resolver."}
